@@ -146,7 +146,7 @@ func frontProbe(cc *run.Case, ind *reg.Indicator, cfg reg.Cfg, class string) {
 }
 
 func c02(ctx *run.Ctx) {
-	nrand := ctx.Pick(10, 25)
+	nrand := ctx.Pick(10, 100)
 	for _, ind := range reg.Sorted() {
 		ind := ind
 		ctx.Count("cmp:"+ind.Name, 0)
@@ -202,7 +202,7 @@ func c02(ctx *run.Ctx) {
 					}
 				})
 			}
-			if ci <= ctx.Pick(2, 8) {
+			if ci <= ctx.Pick(2, 24) {
 				for _, class := range []string{gen.Walk, gen.Dyadic} {
 					class := class
 					ctx.Case(fmt.Sprintf("%s/cfg%d/front/%s", ind.Name, ci, class), func(cc *run.Case) {
